@@ -85,7 +85,7 @@ def run(ck):
                       {"kind": "vector", "vector": v, "mismatch": m})
     ck.evaluations += len(vecs)
     def val(tp):
-        return ck.validate_segments("Dict_Trace", "trace/Dict_Trace.cfg", tp, timeout=3000, name="trace_" + os.path.basename(tp)[:9], heap_gb=5)
+        return ck.validate_segments("Dict_Trace", "trace/Dict_Trace.cfg", tp, timeout=3000, name="trace_" + os.path.basename(tp)[:9], heap_gb=3)
     nontrivial = 0
     for tp, (res, rejected) in zip(rtraces + dtraces, vlib.parallel(val, rtraces + dtraces, n=16)):
         for rj in rejected:
